@@ -1008,3 +1008,118 @@ example : (envInstall cfgK.fr.env "q" (.int 1)).reverse = pyInstall symtab cfgK.
   install_as_in_source _ _ _ (by unfold EnvUnique; decide) (by decide)
 
 end PyxProps.C04
+
+/-! ==========================================================================================================
+  SOURCE TIE, third part (builder interp-shape): literals, variable / field access, navigation step, and the WRAPPER
+  `ActionWalker.accept` that catches xtuml.MetaException — appended section
+  ========================================================================================================== -/
+namespace PyxProps.C04
+open Pyx.Interp Pyx.IShape Pyx.Gen.InterpShape
+
+/-- literals: `int(node.value)`; `node.value[1:-1]` (the quotes are stripped: first and last character);
+    `node.value.upper() == 'TRUE'` (any letter case) — the normalisations PyxModel/Interp/Decode.lean applies when it builds
+    `Expr.int / .str / .bool` from the node (accept_RealNode is in the IR; reals are not modelled, no equation) -/
+theorem literals_as_in_source (C : Ctx) (rec : Oracle) (v : String) :
+    (∀ i, v.toInt? = some i → evalStep C rec (.int i) = handlerE C (strNode [("value", v)]) accept_IntegerNode) ∧
+    evalStep C rec (.str (String.ofList ((v.toList.drop 1).dropLast))) = handlerE C (strNode [("value", v)]) accept_StringNode ∧
+    evalStep C rec (.bool (asciiUpper v == "TRUE")) = handlerE C (strNode [("value", v)]) accept_BooleanNode :=
+  ⟨fun i h => integer_eq C rec v i h, string_eq C rec v, boolean_eq C rec v⟩
+
+/-- accept_VariableAccessNode is LAZY: the handler touches nothing and returns a property whose getter is
+    `find_symbol(name)` and whose setter `install_symbol(name, ·)`; reading the variable is the getter called, assigning to it
+    the setter called after the expression was evaluated -/
+theorem variable_access_as_in_source (C : Ctx) (rec : Oracle) (x : String) (e : Expr) :
+    handlerP C (strNode [("variable_name", x)]) accept_VariableAccessNode =
+      pure (.lazy (lookupVar C x) (fun v => install x v)) ∧
+    evalStep C rec (.var x) = (handlerP C (strNode [("variable_name", x)]) accept_VariableAccessNode >>= propGet) ∧
+    execStep C rec (.assignVar x e) = (do
+      let v ← rec.eval e
+      let p ← handlerP C (strNode [("variable_name", x)]) accept_VariableAccessNode
+      propSet v p
+      pure .normal) :=
+  ⟨variableAccess_eq C x, variableRead_eq C rec x, variableWrite_eq C rec x e⟩
+
+/-- accept_FieldAccessNode evaluates the handle at once and returns a property; `getattr(handle, node.name)` /
+    `setattr(handle, node.name, value)` run when fget / fset is called (atoms: `Spec`'s readField / writeField, which include the
+    return_value register rule of the DerivedAttributeWalker override).  An EMPTY handle: `Spec` leaves the domain ("empty
+    instance handle"); the source raises AttributeError, which is NOT an xtuml.MetaException, so the wrapper below does not
+    swallow it: the run ends -/
+theorem field_access_as_in_source (C : Ctx) (rec : Oracle) (h : Expr) (name : String) (e : Expr) :
+    handlerP C (fieldNode C rec (rec.eval h) name) accept_FieldAccessNode = (do
+      let hv ← rec.eval h
+      pure (.lazy (do let i ← asInst hv; readField C rec i name) (fun v => do let i ← asInst hv; writeField C i name v))) ∧
+    evalStep C rec (.field h name) = (handlerP C (fieldNode C rec (rec.eval h) name) accept_FieldAccessNode >>= propGet) ∧
+    execStep C rec (.assignField h name e) = (do
+      let v ← rec.eval e
+      let p ← handlerP C (fieldNode C rec (rec.eval h) name) accept_FieldAccessNode
+      propSet v p
+      pure .normal) :=
+  ⟨fieldAccess_eq C rec (rec.eval h) name, fieldRead_eq C rec h name, fieldWrite_eq C rec h name e⟩
+
+/-- accept_NavigationStepNode: the closure navigates to `node.key_letter` across `node.rel_id` with the phrase WITHOUT its
+    ticks — the `NavStep` Decode.lean builds and `select_related_as_in_source` folds over -/
+theorem navigation_step_as_in_source (C : Ctx) (kl rel ph : String) :
+    handlerP C (strNode [("key_letter", kl), ("rel_id", rel), ("phrase", ph)]) accept_NavigationStepNode =
+      pure (.step ⟨kl, rel, stripTicks ph⟩) :=
+  navigationStep_eq C kl rel ph
+
+/-- the wrapper, IN THE DOMAIN: when the handler raises no xtuml.MetaException `self.accept(child)` is the child's handler, so
+    the children the theorems above are stated with are the children the source runs (`wrappedChild … = stmtChild …`); and
+    `default_accept` (a node without handler) only logs: None, configuration untouched -/
+theorem accept_in_domain_as_in_source (rec : Oracle) (s : Stmt) (m : M Out) (disp : M (WRes Out)) :
+    iWs (inDomain m) ActionWalker_accept = inDomain m ∧
+    wrappedChild (inDomain (rec.exec s)) = stmtChild rec s ∧
+    iWs disp ActionWalker_default_accept = pure .next :=
+  ⟨accept_inDomain m, wrappedChild_inDomain rec s, default_accept_eq disp⟩
+
+/-- the wrapper, OUT OF THE DOMAIN (what `Spec` does not model: it ends in a domain error there, and the harness drops or
+    only error-compares such programs): a handler that raises an xtuml.MetaException (`WRes.raised`, in the configuration c' it
+    had reached) makes `self.accept` return None IN c' — nothing propagates — and the statement list GOES ON with the next
+    child: `swallowList` (a raised child counts as completed) is exactly the interpreted accept_StatementListNode over
+    wrapped children -/
+theorem accept_swallows_meta_exception (C : Ctx) (disp : M (WRes Out)) (ds : List (M (WRes Out))) (c c' : Cfg)
+    (h : disp c = some (.ok (.raised, c'))) :
+    iWs disp ActionWalker_accept c = some (.ok (.next, c')) ∧
+    handlerS C { children := ds.map wrappedChild } accept_StatementListNode = swallowList ds ∧
+    swallowList (disp :: ds) c = swallowList ds c' :=
+  ⟨accept_meta disp c c' h, statementList_swallows C ds, by
+    show (disp >>= _) c = _
+    rw [bnd_ok h]⟩
+
+/-! non-vacuity -/
+
+/-- "'ab'" gives ab (without the slice the quotes stay); TrUe is true -/
+example : (match handlerE CK (strNode [("value", "'ab'")]) accept_StringNode cfgK with | some (.ok (v, _)) => some v | _ => none) =
+      some (.str "ab") ∧
+    (match handlerE CK (strNode [("value", "'ab'")]) [.assign "value" (.fieldVal "value"), .ret (.property "value")] cfgK with
+      | some (.ok (v, _)) => some v | _ => none) = some (.str "'ab'") ∧
+    (match handlerE CK (strNode [("value", "TrUe")]) accept_BooleanNode cfgK with | some (.ok (v, _)) => some v | _ => none) =
+      some (.bool true) := by
+  decide +kernel
+
+/-- a step that ignores the phrase is another step -/
+example : (match handlerP CK (strNode [("key_letter", "K"), ("rel_id", "R1"), ("phrase", "'x'")]) accept_NavigationStepNode cfgK with
+      | some (.ok (.step s, _)) => some s | _ => none) = some ⟨"K", "R1", "x"⟩ ∧
+    (match handlerP CK (strNode [("key_letter", "K"), ("rel_id", "R1"), ("phrase", "'x'")])
+        [.ret (.navClosure [(.field "key_letter"), (.field "rel_id"), (.lit "")])] cfgK with
+      | some (.ok (.step s, _)) => some s | _ => none) = some ⟨"K", "R1", ""⟩ := by
+  decide +kernel
+
+/-- `n = n + 1; <a statement whose handler raises a MetaException after n = n + 1>; n = n + 1`: through the source's wrapper
+    all three run (n = 3); a wrapper that does not catch (`except` another class) stops the list at the failure -/
+def bump : M Unit := do
+  let n ← lookupVar CK "n"
+  let m ← M.liftE (binop .add n (.int 1))
+  install "n" m
+def okStmt : M (WRes Out) := do bump; pure (.ret .normal)
+def failingStmt : M (WRes Out) := do bump; pure .raised
+example : varAfter (swallowList [okStmt, failingStmt, okStmt] cfgK) "n" = some (.int 3) ∧
+    varAfter (handlerS CK { children := [okStmt, failingStmt, okStmt].map wrappedChild } accept_StatementListNode cfgK) "n" =
+      some (.int 3) ∧
+    (match iWs failingStmt ActionWalker_accept cfgK with | some (.ok (.next, c')) => envLookup c'.fr.env "n" | _ => none) =
+      some (.int 1) ∧
+    (match iWs failingStmt [.tryExcept [.returnDispatch] "KeyError" [.logError]] cfgK with
+      | some (.ok (.raised, _)) => true | _ => false) = true := by
+  decide +kernel
+
+end PyxProps.C04
